@@ -1,5 +1,6 @@
 import Proofs.RscaleOpt
 import Proofs.AffLemmas
+import Proofs.GuardLemmas
 import Model.Equiv
 import Mathlib.Algebra.BigOperators.Group.List.Lemmas
 import Mathlib.Algebra.BigOperators.Ring.List
@@ -231,12 +232,31 @@ theorem generalBad_rows (bx bu : Bool) (rows : List (Row K)) :
   rw [combineW_rows]
   cases h : (bx || bu) <;> simp [optW]
 
-theorem fitGeneralR_eq (eps : K) (bx bu : Bool) (rows : List (Row K)) :
-    fitGeneralR eps bx bu rows =
+/-- the second central moments of the `uv` points over rows with weight `g` -/
+def cmomRow (g : Row K → K) (rows : List (Row K)) : UVMom K :=
+  let um := (rows.map fun r => g r * r.o.u).sum / (rows.map g).sum
+  let vm := (rows.map fun r => g r * r.o.v).sum / (rows.map g).sum
+  { cuu := (rows.map fun r => g r * ((r.o.u - um) * (r.o.u - um))).sum
+    cvv := (rows.map fun r => g r * ((r.o.v - vm) * (r.o.v - vm))).sum
+    cuv := (rows.map fun r => g r * ((r.o.u - um) * (r.o.v - vm))).sum }
+
+theorem cmoments_rows (g : Row K → K) (rows : List (Row K)) :
+    cmoments (rows.map g) (rowsObs rows) (gsumsRow g rows) = cmomRow g rows := by
+  unfold cmoments cmomRow gsumsRow rowsObs
+  simp only [List.map_map, mulL_map_map, dotL_map_map, Function.comp_def]
+
+theorem generalGuardR_eq (epsD : K) (bx bu : Bool) (rows : List (Row K)) :
+    generalGuardR epsD bx bu rows = collinearGuard epsD (cmomRow (wsel bx bu) rows) := by
+  unfold generalGuardR generalGuard
+  rw [generalW_rows, gsums_rows, cmoments_rows]
+
+theorem fitGeneralR_eq (eps epsD : K) (bx bu : Bool) (rows : List (Row K)) :
+    fitGeneralR eps epsD bx bu rows =
       if rows.length < 3 then .error .notEnoughPoints
       else if weightsBad 3 bx bu rows = true then .error .badWeights
+      else if generalGuardR epsD bx bu rows = true then .error .singular
       else gsolve eps (gsumsRow (wsel bx bu) rows) := by
-  unfold fitGeneralR fitGeneral
+  unfold fitGeneralR fitGeneral generalGuardR
   rw [generalBad_rows, generalW_rows, gsums_rows]
   simp [rowsObs]
 
@@ -333,6 +353,15 @@ theorem perm_gsumsRow {rows rows' : List (Row K)} (h : rows.Perm rows') (g : Row
     gsumsRow g rows' = gsumsRow g rows := by
   unfold gsumsRow
   simp only [perm_sum_map h]
+
+theorem perm_cmomRow {rows rows' : List (Row K)} (h : rows.Perm rows') (g : Row K → K) :
+    cmomRow g rows' = cmomRow g rows := by
+  unfold cmomRow
+  simp only [perm_sum_map h]
+
+theorem perm_generalGuardR {rows rows' : List (Row K)} (h : rows.Perm rows') (epsD : K) (bx bu : Bool) :
+    generalGuardR epsD bx bu rows' = generalGuardR epsD bx bu rows := by
+  rw [generalGuardR_eq, generalGuardR_eq, perm_cmomRow h]
 
 theorem perm_rsumsRow {rows rows' : List (Row K)} (h : rows.Perm rows') (gm gq : Row K → K) :
     rsumsRow gm gq rows' = rsumsRow gm gq rows := by
@@ -445,6 +474,41 @@ theorem shiftVal_wsumO (gn : Row K → K) (rows : List (Row K)) :
     shiftVal gn rows = ⟨1, 0, 0, 1, wsumO rows gn (fun o => o.x - o.u), wsumO rows gn (fun o => o.y - o.v)⟩ :=
   rfl
 
+/-- re-weighting by one positive constant multiplies the three central moments by it (the
+weighted means are unchanged): the collinearity guard gives the same answer -/
+theorem collinearGuard_reweight (T : Row K → Row K) (hT : ∀ r, (T r).o = r.o) (g g' : Row K → K)
+    (rows : List (Row K)) (c : K) (hc : 0 < c) (hg : ∀ r ∈ rows, g' (T r) = c * g r) (epsD : K) :
+    collinearGuard epsD (cmomRow g' (rows.map T)) = collinearGuard epsD (cmomRow g rows) := by
+  have hs : ∀ P : Row K → K, ((rows.map T).map fun r => g' r * P r).sum
+      = c * (rows.map fun r => g r * P (T r)).sum := by
+    intro P
+    rw [List.map_map, ← sum_map_mul_left']
+    exact sum_map_congr rows _ _ (fun r hr => by simp only [Function.comp_def, hg r hr]; ring)
+  have hsum : ((rows.map T).map g').sum = c * (rows.map g).sum := by
+    rw [List.map_map, ← sum_map_mul_left']
+    exact sum_map_congr rows _ _ hg
+  have hcne : c ≠ 0 := ne_of_gt hc
+  have hum : ((rows.map T).map fun r => g' r * r.o.u).sum / ((rows.map T).map g').sum
+      = (rows.map fun r => g r * r.o.u).sum / (rows.map g).sum := by
+    rw [hs (fun r => r.o.u), hsum]
+    simp only [hT]
+    exact mul_div_mul_left _ _ hcne
+  have hvm : ((rows.map T).map fun r => g' r * r.o.v).sum / ((rows.map T).map g').sum
+      = (rows.map fun r => g r * r.o.v).sum / (rows.map g).sum := by
+    rw [hs (fun r => r.o.v), hsum]
+    simp only [hT]
+    exact mul_div_mul_left _ _ hcne
+  apply collinearGuard_smul epsD c hc
+  · simp only [cmomRow, hum, hvm]
+    rw [hs (fun r => (r.o.u - _) * (r.o.u - _))]
+    simp only [hT]
+  · simp only [cmomRow, hum, hvm]
+    rw [hs (fun r => (r.o.v - _) * (r.o.v - _))]
+    simp only [hT]
+  · simp only [cmomRow, hum, hvm]
+    rw [hs (fun r => (r.o.u - _) * (r.o.v - _))]
+    simp only [hT]
+
 /-! ### re-weighting: a map `T` of the rows that keeps the pairs and multiplies the selected
 weight by a positive constant -/
 
@@ -474,6 +538,11 @@ theorem reweight_gmom : ∀ r ∈ rows, gmom bx bu (rows.map T) (T r) = gmom bx 
   rw [reweight_sum T bx bu rows c hc hg, hg r hr, mul_div_mul_left _ _ (ne_of_gt hc)]
 
 include hT
+
+theorem reweight_generalGuardR (epsD : K) :
+    generalGuardR epsD bx bu (rows.map T) = generalGuardR epsD bx bu rows := by
+  rw [generalGuardR_eq, generalGuardR_eq]
+  exact collinearGuard_reweight T hT (wsel bx bu) (wsel bx bu) rows c hc hg epsD
 
 theorem reweight_shiftVal :
     shiftVal (gnorm bx bu (rows.map T)) (rows.map T) = shiftVal (gnorm bx bu rows) rows := by
@@ -558,6 +627,15 @@ theorem uniform_gmom (hb : (bx || bu) = true) : ∀ r ∈ rows, gmom bx bu rows 
     have : rows.length ≠ 0 := by intro h0; rw [List.length_eq_zero_iff] at h0; simp [h0] at hr
     exact_mod_cast this
   field_simp
+
+/-- constant weights give the same answer of the collinearity guard as no weights -/
+theorem uniform_generalGuardR (epsD : K) :
+    generalGuardR epsD bx bu rows = generalGuardR epsD false false rows := by
+  rw [generalGuardR_eq, generalGuardR_eq]
+  have := collinearGuard_reweight id (fun _ => rfl) (wsel false false) (wsel bx bu) rows c hc
+    (fun r hr => by rw [id, hg r hr]; simp [wsel]) epsD
+  rw [List.map_id] at this
+  exact this
 
 theorem uniform_shiftVal :
     shiftVal (gnorm bx bu rows) rows = shiftVal (gnorm false false rows) rows := by
